@@ -23,9 +23,10 @@ def lookup_forms(n):
             f'=VLOOKUP(E1,A1:C{n},2,TRUE)', f'=VLOOKUP(E1,A1:C{n},2)', f'=VLOOKUP(E1,A1:C{n},2,1)',             # 3-5 approx
             f'=MATCH(E1,A1:A{n},0)', f'=MATCH(E1,A1:A{n},1)', f'=MATCH(E1,A1:A{n})',                            # 6 exact, 7-8 approx
             f'=XMATCH(E1,A1:A{n})', f'=XMATCH(E1,A1:A{n},0,1)', f'=XMATCH(E1,A1:A{n},0,-1)',                    # 9-10 exact first, 11 last
-            f'=INDEX(B1:B{n},MATCH(E1,A1:A{n},0))', f'=INDEX(A1:C{n},MATCH(E1,A1:A{n},0),3)']                    # 12-13 partner
+            f'=INDEX(B1:B{n},MATCH(E1,A1:A{n},0))', f'=INDEX(A1:C{n},MATCH(E1,A1:A{n},0),3)',                   # 12-13 partner
+            f'=VLOOKUP(E1,A1:C{n},6/2,FALSE)', f'=VLOOKUP(E1,A1:C{n},4/2,TRUE)']                                # 14-15 the result column as the result of a division (a float)
 # which ideal field each formula must equal
-WANT = ['v2', 'v3', 'v2', 'a2', 'a2', 'a2', 'ef', 'ap', 'ap', 'ef', 'ef', 'el', 'v2', 'v3']
+WANT = ['v2', 'v3', 'v2', 'a2', 'a2', 'a2', 'ef', 'ap', 'ap', 'ef', 'ef', 'el', 'v2', 'v3', 'v3', 'a2']
 
 
 def probe(n):
@@ -94,7 +95,7 @@ def _lookup_job(recs):
                     res = p.eval(ov)
                     for j, (w, r) in enumerate(zip(WANT, res)):
                         exp = row[w]
-                        if j >= 12 and exp == NA:
+                        if j in (12, 13) and exp == NA:
                             exp = ERR        # INDEX(.., MATCH miss): some error outcome (the statement defines the partner of present keys)
                         if exp == OOS:
                             continue
@@ -371,7 +372,7 @@ def _trace_job(seeds):
             if sticky and n not in sessions:
                 sessions[n] = p.session()
             res = (sessions[n].eval if sticky else p.eval)([(0, 0, i, k) for i, k in enumerate(keys)] + [(0, 4, 0, obs_v)])
-            for j, f in ((0, 'VEXACT'), (3, 'VAPPROX'), (4, 'VAPPROX'), (6, 'EXACT'), (7, 'APPROX'), (8, 'APPROX'), (9, 'EXACT'), (11, 'LAST'), (12, 'PARTNER')):
+            for j, f in ((0, 'VEXACT'), (3, 'VAPPROX'), (4, 'VAPPROX'), (6, 'EXACT'), (7, 'APPROX'), (8, 'APPROX'), (9, 'EXACT'), (11, 'LAST'), (12, 'PARTNER'), (15, 'VAPPROX')):
                 out.append({'f': f, 'keys': keys, 'v': v, 'o': code(*res[j]), 'raw': show(*res[j]), 'formula': p.formulas[j]})
         return out
     except Exception as e:
@@ -433,7 +434,7 @@ def public_path(run):
     for j, f in enumerate(forms):
         cells[(6, j)] = f
     res = repo.public_path_eval(run.scratch, [('S', cells)], [(0, 6, j) for j in range(len(forms))], tag='c14pp')
-    exp = [202, 203, 202, 302, 302, 302, 2, 3, 3, 2, 2, 3, 202, 203, '$AAA$7', 703, REF, 503]
+    exp = [202, 203, 202, 302, 302, 302, 2, 3, 3, 2, 2, 3, 202, 203, 203, 302, '$AAA$7', 703, REF, 503]
     for f, e, r in zip(forms, exp, res):
         got = r[1] if (r[0] == 'val' and isinstance(e, str)) else code(*r)
         run.judge({'in': {'formula': f, 'keys': keys, 'v': 20, 'mode': 'file'}, 'ideal': e, 'obs': show(*r), 'kind': 'public_path'}, got == e,
@@ -474,8 +475,8 @@ def replay(run, case):
         r = p.eval([(0, 0, k, kv) for k, kv in enumerate(keys)] + [(0, 4, 0, i['v'])], idxs=(j,))[0]
         if all(isinstance(k, int) for k in keys) and isinstance(i['v'], int):
             f = {0: 'VEXACT', 1: 'VEXACT', 2: 'VEXACT', 3: 'VAPPROX', 4: 'VAPPROX', 5: 'VAPPROX', 6: 'EXACT', 7: 'APPROX', 8: 'APPROX', 9: 'EXACT', 10: 'EXACT',
-                 11: 'LAST', 12: 'PARTNER', 13: 'PARTNER'}[j]
-            if j in (1, 13):
+                 11: 'LAST', 12: 'PARTNER', 13: 'PARTNER', 14: 'VEXACT', 15: 'VAPPROX'}[j]
+            if j in (1, 13, 14):
                 run.judge(dict(case, obs=show(*r)), ideal_text(code(*r)) == case['ideal'], clause=f"{i['formula']} = {show(*r)}, expected {case['ideal']}")
                 return
             judge_events(run, [{'f': f, 'keys': keys, 'v': i['v'], 'o': code(*r), 'raw': show(*r), 'formula': i['formula']}], 'replay')
